@@ -3,6 +3,7 @@ import Mkdb.Proofs.Forest
 import Mkdb.Proofs.RefineScan
 import Mkdb.Proofs.RefineHistory
 import Mkdb.Proofs.RefineStmt
+import Mkdb.Proofs.RefineStmtB
 /-!
 # C01 — table contents always equal what the statement history implies
 
@@ -277,5 +278,56 @@ theorem C01_statement_unknown_table (s : Store) (pt sch : Levels) (tbls : List (
     (h1 : table ≠ sysPages) (h2 : table ≠ sysSchema) (h3 : table ∉ tbls.map (·.1)) :
     ∃ s', insert table cols vals s = .err .tableNotExist s' ∧ Same s s' ∧ Cat s' pt sch tbls :=
   insert_unknown_table s pt sch tbls h table cols vals h1 h2 h3
+
+end Mkdb.Store
+
+namespace Mkdb.Store
+open Mkdb.Tree Mkdb.Page Mkdb.Tuple Mkdb.Generated
+
+/-- **C01.statement_select**: under the catalog invariant, `RelationService.Fetch` on a known table -
+what SELECT reads - returns, for every live cell of the table's tree in scan order, its row id and
+its decoded values, and the table's declared columns; it changes nothing the engine can see. -/
+theorem C01_statement_select {s : Store} {pt sch : Levels} {tbls : List (Bytes × Levels)} (h : Cat s pt sch tbls)
+    (table : Bytes) (t : Levels) (ht : (table, t) ∈ tbls) (schema : List FieldDef)
+    (hsch : schemaOf sch table = some schema)
+    (hdec : ∀ c ∈ live t, ∃ m, decodeTuple schema c.val [] = .ok m) :
+    ∃ s', fetchTable table s = .ok (rowsOf schema (live t), schema) s' ∧ Same s s' ∧ Cat s' pt sch tbls :=
+  fetchTable_cat h table t ht schema hsch hdec
+
+/-- **C01.statement_delete**: `RelationService.MarkDeleted` of a live row id finds the row through the
+catalog and the tree, sets its tombstone, logs one DELETE record with the next LSN, touches no other
+page and no other table; afterwards the table reads as before without that row
+(`markDeleted_live`); a row id that is absent or already deleted is refused and nothing changes
+(`markDeleted_cat_absent`). -/
+theorem C01_statement_delete {s : Store} {pt sch : Levels} {tbls : List (Bytes × Levels)} (h : Cat s pt sch tbls)
+    (table : Bytes) (t : Levels) (ht : (table, t) ∈ tbls) (rowId : Nat) (c : LeafCell)
+    (hc : c ∈ live t) (hk : c.key = rowId) :
+    ∃ s' l d, (l, d) ∈ t.leaves ∧ c ∈ l.cells ∧
+      markDeleted table rowId s = .ok [⟨c_OpDelete, s.hdr.nextLSN, l.off, rowId, []⟩] s' ∧
+      Cat s' pt sch (setTable tbls table (setDeleted t rowId s.hdr.nextLSN)) ∧
+      s'.hdr.nextLSN = s.hdr.nextLSN + 1 ∧ s'.hdr.lastKey = s.hdr.lastKey ∧
+      s'.hdr.ptRoot = s.hdr.ptRoot ∧ s'.hdr.nextFree = s.hdr.nextFree ∧
+      ∀ off, off ≠ l.off → view s' off = view s off :=
+  markDeleted_cat h table t ht rowId c hc hk
+
+/-- **C01.statement_update**: `RelationService.Update` of a live row id whose new tuple encodes and
+fits replaces exactly that row's value, logs one UPDATE record, and touches nothing else; with no
+such live row it is a no-op (`update_cat_absent`); a row that does not decode, encode or fit is
+refused with nothing changed (`update_cat_undecodable`, `update_cat_encode_error`,
+`update_cat_too_large`). -/
+theorem C01_statement_update {s : Store} {pt sch : Levels} {tbls : List (Bytes × Levels)} (h : Cat s pt sch tbls)
+    (table : Bytes) (t : Levels) (ht : (table, t) ∈ tbls) (schema : List FieldDef)
+    (hsch : schemaOf sch table = some schema) (rowId : Nat) (cols : List String) (src : List Val)
+    (c : LeafCell) (hc : c ∈ live t) (hk : c.key = rowId) (m : Vals) (buf : Bytes)
+    (hdec : decodeTuple schema c.val [] = .ok m)
+    (henc : encodeTuple schema ((cols.zip src).reverse ++ m) = .ok buf)
+    (hlen : buf.length ≤ c_maxValueSize) :
+    ∃ s' l d, (l, d) ∈ t.leaves ∧ c ∈ l.cells ∧
+      update table rowId cols src s = .ok [⟨c_OpUpdate, s.hdr.nextLSN, l.off, rowId, buf⟩] s' ∧
+      Cat s' pt sch (setTable tbls table (setVal t rowId s.hdr.nextLSN buf)) ∧
+      s'.hdr.nextLSN = s.hdr.nextLSN + 1 ∧ s'.hdr.lastKey = s.hdr.lastKey ∧
+      s'.hdr.ptRoot = s.hdr.ptRoot ∧ s'.hdr.nextFree = s.hdr.nextFree ∧
+      ∀ off, off ≠ l.off → view s' off = view s off :=
+  update_cat h table t ht schema hsch rowId cols src c hc hk m buf hdec henc hlen
 
 end Mkdb.Store
